@@ -107,7 +107,8 @@ def entries : List Entry := [
       | [h] => do pure (showOutcomeWith showChallenge (parseChallenge (← fromHex h)))
       | _ => none },
   -- spec: <bytes> alone: silent; <bytes> <flags> <sc> <res> <tn> <ti> <ver> <gap0> <gap1> <gap2>: the bytes must
-  -- be the independent builder's output for that content, and parsing must give the content back
+  -- be the independent builder's output for that content, and parsing must give the content back; with two more
+  -- arguments the builder puts those numbers into TargetNameMaxLen / TargetInfoMaxLen (ignored on receipt)
   { kind := "S", op := "c08.chal", run := fun
       | [_] => some "*"
       | [h, f, sc, rs, tn, ti, ver, g0, g1, g2] => do
@@ -117,6 +118,14 @@ def entries : List Entry := [
         let c : Challenge := ⟨f, sc, rs, tn, ti, ver⟩
         let g0 ← fromHex g0; let g1 ← fromHex g1; let g2 ← fromHex g2
         if Spec.buildChallenge c g0 g1 g2 != b then pure "bad-format"
+        else if wfChallenge c g0 g1 then pure ("ok " ++ showChallenge c) else pure "*"
+      | [h, f, sc, rs, tn, ti, ver, g0, g1, g2, tnMax, tiMax] => do
+        let b ← fromHex h
+        let f ← u32Arg f; let sc ← fromHex sc; let rs ← fromHex rs
+        let tn ← fromHex tn; let ti ← fromHex ti; let ver ← fromHex ver
+        let c : Challenge := ⟨f, sc, rs, tn, ti, ver⟩
+        let g0 ← fromHex g0; let g1 ← fromHex g1; let g2 ← fromHex g2
+        if Spec.buildChallengeMax c g0 g1 g2 (← tnMax.toNat?) (← tiMax.toNat?) != b then pure "bad-format"
         else if wfChallenge c g0 g1 then pure ("ok " ++ showChallenge c) else pure "*"
       | _ => none },
   -- c08.ti <bytes>
